@@ -15,7 +15,7 @@
    repaired: it is the explicit hypothesis [schema83_group G = schema83_single Sp] and stays refuted below. *)
 From Coq Require Import List NArith.
 From HV Require Import Base.Res Base.Str Base.SchemaData Model.Namespace Model.NamespaceX
-  Proofs.NamespaceProofs Proofs.NamespaceData Gen.Repo_c13.
+  Model.NamespaceHist Proofs.NamespaceProofs Proofs.NamespaceHistProofs Proofs.NamespaceData Gen.Repo_c13.
 Import ListNotations.
 
 
@@ -214,6 +214,68 @@ Example C13_nonvacuous :
   /\ ann_tags (prefix_ann ns_tl ex_ann) = [ns_tl ++ s_red; ns_tl ++ s_blue; ns_tl ++ s_red].
 Proof. exact prefixed_equiv_nonvacuous. Qed.
 Print Assumptions C13_nonvacuous.
+
+(* ====================================================================== PART 1b: histories -- objects used under one
+   schema configuration and then under another (Model/NamespaceHist.v) *)
+Section Histories.
+Variable isalpha_c isprint_c : N -> bool.
+Variable foldc titlec lowerc : N -> N.
+Variable fixed : bool.
+Variable R1 R2 R3 : bool -> ann rtag -> list code.
+
+(* (b) For EVERY sequence of set_schema_prefix / validate operations on loaded schema objects (with their
+   attribute caches, filled by whatever policy [fill]), every verdict equals the verdict of a freshly assembled
+   group carrying the current prefixes: the verdict is a function of (current group, text) only. *)
+Theorem C13_reprefix_history_irrelevant :
+  forall (fill : hgroup -> ann str -> bool) (ops : list op) (G : hgroup),
+  CacheOK G ->
+  h_run isalpha_c isprint_c foldc titlec lowerc fixed R1 R2 R3 fill G ops =
+  s_run isalpha_c isprint_c foldc titlec lowerc fixed R1 R2 R3 (strip G) ops.
+Proof. exact (reprefix_history_irrelevant isalpha_c isprint_c foldc titlec lowerc fixed R1 R2 R3). Qed.
+
+(* (a) An annotation object built under configuration A and judged by a validator for B.  FULL STATEMENT:
+     forall cA cB a, verdict_cross cA cB a = verdict cB a   -- FALSE of the code as it is (two refutations below).
+   Proved with the two defects as explicit hypotheses: re-identification of each tag under B gives what a fresh
+   identification gives (fails for C13-F6), and the tags are re-identified before the tag character check
+   (fix-F5, fixed5 = true) or that check sees no difference (C13-F5). *)
+Theorem C13_cross_validation_fresh_partial : forall (fixed5 : bool) (cA cB : cfg) (a : ann str),
+  CleanReident cA cB a ->
+  (fixed5 = true \/ R1 (c_flag cB) (ann_map (fun t => fst (resolve_tag cA t)) a)
+                    = R1 (c_flag cB) (ann_map (fun t => fst (resolve_tag cB t)) a)) ->
+  verdict_cross isalpha_c isprint_c foldc titlec lowerc fixed R1 R2 R3 fixed5 cA cB a =
+  verdict isalpha_c isprint_c foldc titlec lowerc fixed R1 R2 R3 cB a.
+Proof. exact (cross_validation_fresh isalpha_c isprint_c foldc titlec lowerc fixed R1 R2 R3). Qed.
+End Histories.
+Print Assumptions C13_reprefix_history_irrelevant.
+Print Assumptions C13_cross_validation_fresh_partial.
+
+(* C13-F5 (known finding, fix-F5 proposed): the tag character check runs on the state left by the schemas the object
+   was built with; with the tags re-identified first the verdict is the fresh one *)
+Theorem C13_cross_refuted_char_check_before_reidentification :
+  let cA := cfg_group [([], s_ext); (ns_tl, s_ext)] in
+  let cB := cfg_group [([], s_ext)] in
+  let a := AGrp [ATag s_tl_r_ab] in
+  x_cross false cA cB a = [LibraryUnmatched] /\ x_fresh cB a = [OtherCode 1 true; LibraryUnmatched]
+  /\ x_cross true cA cB a = x_fresh cB a.
+Proof. exact cross_refuted_char_check_before_reidentification. Qed.
+Print Assumptions C13_cross_refuted_char_check_before_reidentification.
+
+(* C13-F6 (known finding): re-identification starts from the short form the tag had under the other schemas *)
+Theorem C13_cross_refuted_reidentification_from_short_form :
+  let cA := cfg_single ([], toy_sch find_A None true (8, 3, 0) true) in
+  let cB := cfg_single ([], toy_sch find_B None true (8, 3, 0) true) in
+  let a := AGrp [ATag s_I_O] in
+  x_fresh cB a = [] /\ x_cross false cA cB a = [NoValidTagFound] /\ x_cross true cA cB a = [NoValidTagFound].
+Proof. exact cross_refuted_reidentification_from_short_form. Qed.
+Print Assumptions C13_cross_refuted_reidentification_from_short_form.
+
+Example C13_cross_nonvacuous :
+  let cA := cfg_group [([], s_ext); (ns_tl, s_ext)] in
+  let cB := cfg_group [([], s_ext); (ns_tl, std83)] in
+  let a := AGrp [ATag [82%N]; AGrp [ATag (ns_tl ++ [82%N])]] in
+  CleanReident cA cB a /\ x_cross true cA cB a = x_fresh cB a.
+Proof. exact cross_nonvacuous. Qed.
+Print Assumptions C13_cross_nonvacuous.
 
 (* ====================================================================== PART 2: record of the repaired defects
    (fixed = false: the code before the fix: commits for C13-F2, C13-F3, C13-F4) *)
